@@ -491,7 +491,10 @@ func WatchdogDur() time.Duration {
 
 // Guard runs fn under the watchdog and recovers panics.
 // hung=true means fn has not returned; the goroutine is leaked.
-func Guard(fn func()) (panicked string, hung bool) {
+func Guard(fn func()) (panicked string, hung bool) { return GuardN(1, fn) }
+
+// GuardN is Guard with n times the watchdog limit (for code that itself waits on the watchdog several times).
+func GuardN(n int, fn func()) (panicked string, hung bool) {
 	done := make(chan string, 1)
 	go func() {
 		defer func() {
@@ -503,7 +506,7 @@ func Guard(fn func()) (panicked string, hung bool) {
 		}()
 		fn()
 	}()
-	timer := time.NewTimer(WatchdogDur())
+	timer := time.NewTimer(time.Duration(n) * WatchdogDur())
 	defer timer.Stop()
 	select {
 	case p := <-done:
